@@ -10,7 +10,7 @@ from vlib import clist, cpair, log
 
 PID = "C13"
 PROPS = "C13_Props.v"
-TARGETS = ["C13_Props.vo", "C13_Check.vo", "C13_Inv.vo", "C13_EpProofs.vo", "C13_EpTuples.vo", "C13_EpFine.vo", "C13_EpFineWit.vo", "C13_TrFine.vo", "C13_TrFineProofs.vo", "C13_Ingress.vo", "C13_IngressProofs.vo", "C13_IngressCor.vo", "C13_TrGen.vo", "C13_TrGenProofs.vo"]
+TARGETS = ["C13_Props.vo", "C13_Check.vo", "C13_Inv.vo", "C13_EpProofs.vo", "C13_EpTuples.vo", "C13_EpFine.vo", "C13_EpFineWit.vo", "C13_TrFine.vo", "C13_TrFineProofs.vo", "C13_Ingress.vo", "C13_IngressProofs.vo", "C13_IngressCor.vo", "C13_TrGen.vo", "C13_TrGenProofs.vo", "C13_Overflow.vo"]
 HARNESS = ["control/common_test.go", "control/c13_test.go"]
 F7_MATCHER = "C13/idle-gc-claim-without-recheck"
 F14_MATCHER = "C13/overflow-pop-overtakes-channel"
@@ -66,6 +66,32 @@ def translate():
     if dpos < 0:
         raise RuntimeError("anchor moved: delete in UdpEndpointPool.Remove()")
     remove_identity = bool(cmpm) and cmpm.start() < dpos
+    shr = re.search(r"if len\(q\.overflow\) > 0 && len\(q\.overflow\) < cap\(q\.overflow\)/(\d+) && cap\(q\.overflow\) > UdpTaskQueueLength \{(.*?)\n\t\t\}", pbody, re.S)
+    if not shr:
+        raise RuntimeError("anchor moved: overflow capacity shrink in popOverflowTask()")
+    shrink_div = int(shr.group(1))
+    sbody = shr.group(2)
+    mk = re.search(r"shrunk\s*:=\s*make\(\[\]UdpTask,", sbody)
+    if not mk or "q.overflow = shrunk" not in sbody:
+        raise RuntimeError("anchor moved: shape of the overflow shrink")
+    depth, args, cur = 1, [], ""
+    for ch in sbody[mk.end():]:
+        if ch == "(":
+            depth += 1
+        elif ch == ")":
+            depth -= 1
+            if depth == 0:
+                args.append(cur.strip())
+                break
+        if ch == "," and depth == 1:
+            args.append(cur.strip())
+            cur = ""
+        else:
+            cur += ch
+    made_len = args[0] if args else ""
+    # the new slice keeps the waiting tasks iff it is made with their length and then copied into, or filled by append
+    shrink_keeps = (made_len == "len(q.overflow)" and bool(re.search(r"copy\(shrunk,\s*q\.overflow\)", sbody))) or \
+                   bool(re.search(r"shrunk\s*=\s*append\(shrunk,\s*q\.overflow\.\.\.\)", sbody))
     isrc = open(os.path.join(vlib.REPO, "control", "udp_ingress_batch.go")).read()
     tk = re.search(r"func \(r \*udpIngressBatchReader\) Take\(i int\).*?\{(.*?)\n\}\n", isrc, re.S)
     rb = re.search(r"func \(r \*udpIngressBatchReader\) ReadBatch\(\) \(int, error\) \{(.*?)\n\}\n", isrc, re.S)
@@ -100,15 +126,18 @@ def translate():
             "Definition remove_checks_identity : bool := %s.\n"
             "Definition take_clears_buf : bool := %s.\n"
             "Definition ingress_guard_on_buf : bool := %s.\n"
-            "Definition closed_core_reacquires_tracker : bool := %s.\n" % (qlen, sentinel, "true" if recheck else "false",
+            "Definition closed_core_reacquires_tracker : bool := %s.\n"
+            "Definition overflow_shrink_keeps : bool := %s.\n"
+            "Definition overflow_shrink_divisor : nat := %d.\n" % (qlen, sentinel, "true" if recheck else "false",
                                                                  "true" if pop_recheck else "false",
                                                                  "true" if retain_recheck else "false",
                                                                  "true" if remove_identity else "false",
                                                                  "true" if take_clears else "false",
                                                                  "true" if ingress_guard else "false",
-                                                                 "true" if core_reacquires else "false"))
+                                                                 "true" if core_reacquires else "false",
+                                                                 "true" if shrink_keeps else "false", shrink_div))
     vlib.write_if_changed(os.path.join(vlib.COQ, "gen", "C13_Consts.v"), text)
-    return {"queue_length": qlen, "sentinel": sentinel, "recheck": recheck, "pop_overflow_rechecks_channel": pop_recheck, "retain_rechecks_after_wait": retain_recheck, "remove_checks_identity": remove_identity, "take_clears_buf": take_clears, "ingress_guard_on_buf": ingress_guard, "closed_core_reacquires_tracker": core_reacquires}
+    return {"queue_length": qlen, "sentinel": sentinel, "recheck": recheck, "pop_overflow_rechecks_channel": pop_recheck, "retain_rechecks_after_wait": retain_recheck, "remove_checks_identity": remove_identity, "take_clears_buf": take_clears, "ingress_guard_on_buf": ingress_guard, "closed_core_reacquires_tracker": core_reacquires, "overflow_shrink_keeps": shrink_keeps, "overflow_shrink_divisor": shrink_div}
 
 
 
@@ -1175,6 +1204,45 @@ def shrink_trgen(sc, binary, case):
         cur = cands[f[0]]
     return cur
 
+
+# ------------------------------------------------------------------------------------------------
+# long single-flow backlog on the real queue (overflow list growth and capacity shrink)
+# ------------------------------------------------------------------------------------------------
+BACKLOG_KS = [130, 144, 150, 190, 288, 300, 510, 700, 1200]
+
+
+def run_backlog_batch(sc, binary, ks, tag):
+    cases = [{"k": k} for k in ks]
+    inp, outp = sc.path("c13b_%s.in" % tag), sc.path("c13b_%s.out" % tag)
+    with open(inp, "w") as f:
+        for c in cases:
+            f.write(json.dumps(c) + "\n")
+    results = None
+    for mult in (1, 4, 16):
+        rc, so, se, dt = vlib.run_go_harness(binary, "TestVerifC13Backlog", inp, outp, timeout=120 * mult,
+                                             extra_env={"VERIF_SETTLE_MULT": str(mult)})
+        if rc != 0:
+            continue
+        results = [json.loads(l) for l in open(outp)]
+        if all(r.get("idle") for r in results):
+            break
+        STATS["retried_settle_timeouts"] += 1
+    if results is None:
+        return None, None, "backlog harness failed: %s %s" % (so[-800:], se[-800:])
+    terms = ["(mkBO %d %d %d %d %s %s)" % (r["k"], r["chan_len"], r["over_len"], r["over_cap"],
+                                          clist(["run2 %d %d" % (a, b) for a, b in r["runs"]]), vlib.cbool(r.get("idle", False))) for r in results]
+    text = ("From Coq Require Import List Arith Bool ZArith.\nFrom Dae Require Import C13_Spec C13_Model C13_Overflow C13_Check.\n"
+            "Import ListNotations.\n"
+            "Definition cases : list bobs := [\n" + ";\n".join(terms) + "\n].\n"
+            "Definition R := Eval vm_compute in map bcheck_case cases.\nPrint R.\n")
+    ok, outtxt = vlib.coq_eval("C13_bcases_%s_%d" % (tag, os.getpid()), text)
+    if not ok:
+        return None, None, "coq evaluation (backlog) failed: " + outtxt[-2500:]
+    per = parse_pairs_lists(outtxt, "R", len(cases))
+    if per is None:
+        return None, None, "cannot parse coq output (backlog): " + outtxt[:600]
+    return {i: e for i, e in enumerate(per) if e}, results, None
+
 # ------------------------------------------------------------------------------------------------
 def main(argv):
     args = vlib.main_args(argv)
@@ -1285,7 +1353,8 @@ def main(argv):
         gdir = os.path.join(vlib.VERIF, "corpus", PID, "generations")
         gcorpus = [json.load(open(os.path.join(gdir, n))) for n in sorted(os.listdir(gdir)) if n.endswith(".json")] if os.path.isdir(gdir) else []
         gcases = gcorpus + [gen_trgen_case(rng, big=(not quick and i % 3 == 0)) for i in range(n_gen)]
-        pool_exec = concurrent.futures.ThreadPoolExecutor(max_workers=6)
+        pool_exec = concurrent.futures.ThreadPoolExecutor(max_workers=7)
+        fut_b = pool_exec.submit(run_backlog_batch, sc, binary, BACKLOG_KS, "b0")
         fut_g = pool_exec.submit(run_trgen_batch, sc, binary, gcases, "g0")
         fut_i = pool_exec.submit(run_ingress_batch, sc, binary, icases, "i0")
         fut_tf = pool_exec.submit(run_tfine_batch, sc, binary, tfcases, "tf0")
@@ -1423,7 +1492,25 @@ def main(argv):
         tferrs, tfsigs, tfresults, tferr = fut_tf.result()
         ierrs, isigs, ierr = fut_i.result()
         gerrs, gsigs, gerr = fut_g.result()
+        berrs, bresults, berr = fut_b.result()
         pool_exec.shutdown()
+        b_spec, b_model = [], []
+        if berr:
+            tie_broken = (tie_broken or "") + " | " + berr
+        else:
+            b_spec = sorted(i for i, e in berrs.items() if any(c == 2 for _, c in e))
+            b_model = sorted(i for i, e in berrs.items() if any(c in (1, 3) for _, c in e) and i not in b_spec)
+            STATS["unresolved_settle_timeouts"] += sum(1 for e in berrs.values() if any(c == 4 for _, c in e))
+            if b_spec:
+                i = b_spec[0]
+                r = bresults[i]
+                out.violation("impl_vs_spec_backlog", {"case": {"k": r["k"]}, "errors": berrs[i], "failing_cases": len(b_spec),
+                                                      "observed": {kk: r[kk] for kk in ("chan_len", "over_len", "over_cap", "executed", "runs")},
+                                                      "how": "feed {\"k\": k} to TestVerifC13Backlog: one flow, the worker is held inside task 0 while tasks 1..k are emitted "
+                                                             "(channel of UdpTaskQueueLength, then the overflow list), then released; runs = executed ids as (first id, count) of "
+                                                             "consecutive ids; (n,2): with the worker idle again only n ids were executed / not 0..k in order"},
+                              "long backlog of one flow: tasks waiting in the overflow list are dropped or reordered when the list is drained (%d of %d backlog sizes)"
+                              % (len(b_spec), len(BACKLOG_KS)))
         g_spec, g_model = [], []
         if gerr:
             tie_broken = (tie_broken or "") + " | " + gerr
@@ -1573,7 +1660,7 @@ def main(argv):
                                                         "how": "feed the case to TestVerifC13Endpoint: after call n the returned endpoint / dial count / transport close calls / "
                                                                "pool entry / kernel tuple owners / drain tickets differ from the reference machine of C13_Spec.v part 3"},
                               "endpoint pool hands out, dials, closes or releases differently from the property's reference machine (%d failing histories)" % len(e_spec_fail))
-        if (not proof_ok or tie_broken or xerr or model_fail or mspec_fail or t_model_fail or e_model_fail or f_model or tf_model or i_model or g_model) and not (other_spec or t_spec_fail or e_spec_fail or f_spec or tf_spec or i_spec or g_spec):
+        if (not proof_ok or tie_broken or xerr or model_fail or mspec_fail or t_model_fail or e_model_fail or f_model or tf_model or i_model or g_model or b_model) and not (other_spec or t_spec_fail or e_spec_fail or f_spec or tf_spec or i_spec or g_spec or b_spec):
             what = {}
             if xerr:
                 what["translator"] = xerr
@@ -1586,6 +1673,8 @@ def main(argv):
                 what["correspondence_case"] = {"case": cases[j], "errors": all_err[j]}
             if mspec_fail:
                 what["model_vs_spec_case"] = {"case": cases[mspec_fail[0]], "errors": all_err[mspec_fail[0]]}
+            if b_model:
+                what["backlog_correspondence_case"] = {"case": {"k": bresults[b_model[0]]["k"]}, "errors": berrs[b_model[0]], "observed": bresults[b_model[0]]}
             if g_model:
                 what["generations_correspondence_case"] = {"case": gcases[g_model[0]], "errors": gerrs[g_model[0]]}
             if i_model:
@@ -1608,7 +1697,7 @@ def main(argv):
         enontriv = set(x for x in esigs if int(x[0]) >= 2 and (int(x[1]) > 0 or int(x[2]) > 0))
         fnontriv = set(x for x in fsigs if int(x[0]) >= 2 and int(x[2]) >= 1)
         tfnontriv = set(x for x in tfsigs if int(x[0]) >= 1 and int(x[1]) >= 1)
-        cov.update(evaluations=n_eval + len(tcases) + len(ecases) + len(fcases) + len(tfcases) + len(icases) + len(gcases),
+        cov.update(evaluations=n_eval + len(tcases) + len(ecases) + len(fcases) + len(tfcases) + len(icases) + len(gcases) + len(BACKLOG_KS),
                    distinct_nontrivial=len(nontriv) + len(tnontriv) + len(enontriv) + len(fnontriv) + len(tfnontriv) + len(set(x for x in isigs if int(x[0]) >= 2 and int(x[1]) >= 1)),
                    distinct_signatures=len(set(sigs)) + (len(set(tsigs)) if not terr else 0) + len(set(esigs)) + len(set(fsigs)) + len(set(tfsigs)) + len(set(isigs)) + len(set(gsigs)),
                    rule="task pool: random command lists (named / any / prefer-producer / prefer-task / prefer-convoy releases; 2-12 producers over 1-3 flow keys; channel capacity 1-3, "
@@ -1626,10 +1715,10 @@ def main(argv):
                         "ingress batch reader: 1-3 slots, batches of 0..slots+1 datagrams (15% without a valid source address), takes (mostly all delivered slots, also stray indices), task runs "
                         "delayed so that later batches arrive in the same slot while the earlier packet's task is pending, closes; signature = (tasks, reads with a pending task, invalid-address takes); "
                         "non-trivial = two tasks and a read with a pending task",
-                   traces_validated_against_impl=(n_eval - len(model_fail)) + (len(tcases) - len(t_model_fail)) + (len(ecases) - len(e_spec_fail) - len(e_model_fail)) + (len(fcases) - len(f_model)) + (len(tfcases) - len(tf_model)) + (len(icases) - len(i_model)) + (len(gcases) - len(g_model)),
+                   traces_validated_against_impl=(n_eval - len(model_fail)) + (len(tcases) - len(t_model_fail)) + (len(ecases) - len(e_spec_fail) - len(e_model_fail)) + (len(fcases) - len(f_model)) + (len(tfcases) - len(tf_model)) + (len(icases) - len(i_model)) + (len(gcases) - len(g_model)) + (len(BACKLOG_KS) - len(b_model)),
                    comparisons="per command: resolved thread, parked set, events impl = model; whole history: impl vs spec (safety + completeness at rest), model vs spec; "
                                "tracker per call: kernel deletes impl = model = spec, entry table impl = model; endpoint pool per call: impl = code-shaped model (C13_EpModel) = reference machine of the spec, all three ways",
-                   pool_cases=n_eval, tracker_cases=len(tcases), endpoint_cases=len(ecases), endpoint_fine_schedules=len(fcases), tracker_thread_schedules=len(tfcases), ingress_histories=len(icases), generation_histories=len(gcases), endpoint_fine_creation_window_hits=len(f_known),
+                   pool_cases=n_eval, tracker_cases=len(tcases), endpoint_cases=len(ecases), endpoint_fine_schedules=len(fcases), tracker_thread_schedules=len(tfcases), ingress_histories=len(icases), generation_histories=len(gcases), backlog_sizes=BACKLOG_KS, endpoint_fine_creation_window_hits=len(f_known),
                    schedules_hitting_idle_gc_race=len(f7_cases), schedules_hitting_overflow_overtake=len(f14_cases), timing_retries=STATS.get("timing_retries", 0), retried_settle_timeouts=STATS["retried_settle_timeouts"], unresolved_settle_timeouts=STATS["unresolved_settle_timeouts"],
                    samples=[sample, tcases[0], ecases[0]],
                    widened_search=widened)
